@@ -177,7 +177,7 @@ class C16:
         ctx = self.ctx
         s = ctx.summ.of_func(DIMS, "get_coord_index")
         site = f"{self.file}:{s.node.lineno} get_coord_index"
-        arr, dim, value, re_ = (("param", p) for p in s.params)
+        arr, dim, value, re_ = (("param", p) for p in s.params[:4])
         rng = ("call", ("global", f"{DIMS}:get_dim_range", "func"), (arr, dim), ())
         st, sp = ("sub", rng, ("const", 0)), ("sub", rng, ("const", 1))
         inrange = ("bin", "-", ("call", ("attr", ("sub", ("attr", arr, "indexes"), dim), "get_slice_bound"), (value, ("const", "right")), ()), ("const", 1))
